@@ -90,7 +90,7 @@ Proof.
   destruct (m =? 2).
   { destruct ((dovi_profile x' =? 7) || (dovi_profile x' =? 8)).
     - inversion Hz; subst. unfold convert_to_p81_remove_mapping.
-      destruct (el_type x') as [[|[|]]|]; rewrite ?rdm_remove_mapping, rdm_convert_to_p81, Hx; constructor.
+      destruct (el_type x') as [[|[?|?|]]|]; rewrite ?rdm_remove_mapping, rdm_convert_to_p81, Hx; constructor.
     - destruct (dovi_profile x' =? 5); [|discriminate]. unfold p5_to_p81 in Hz.
       destruct (dovi_profile x' =? 5); [|discriminate]. inversion Hz; subst. cbn. constructor. }
   destruct (m =? 3).
@@ -147,6 +147,25 @@ Lemma profile8_flags h : vdr_rpu_profile h = 1 ->
   get_dovi_profile (hdr_set_el h false true) = 8.
 Proof. intros H. unfold get_dovi_profile. cbn. rewrite H. reflexivity. Qed.
 
+Lemma prof_refresh z : dovi_profile (refresh z) = get_dovi_profile (hdr z). Proof. reflexivity. Qed.
+Lemma eltype_refresh z : el_type (refresh z) = el_type_of (rmapping z). Proof. reflexivity. Qed.
+Lemma hdr_p81 x : hdr (convert_to_p81 x) = hdr_set_el (hdr x) false true. Proof. reflexivity. Qed.
+Lemma hdr_remove_mapping y : hdr (remove_mapping y) = hdr y. Proof. reflexivity. Qed.
+Lemma hdr_set_modified x : hdr (set_modified x) = hdr x. Proof. reflexivity. Qed.
+Lemma el_p81 x : el_type_of (rmapping (convert_to_p81 x)) = None.
+Proof. unfold convert_to_p81. cbn [rmapping]. destruct (rmapping x); reflexivity. Qed.
+Lemma el_remove_mapping y : el_type_of (rmapping (remove_mapping y)) = el_type_of (rmapping y).
+Proof. unfold remove_mapping, with_mapping. cbn [rmapping]. destruct (rmapping y); reflexivity. Qed.
+
+Lemma p81_rm_profile x : vdr_rpu_profile (hdr x) = 1 ->
+  get_dovi_profile (hdr (convert_to_p81_remove_mapping x)) = 8 /\
+  el_type_of (rmapping (convert_to_p81_remove_mapping x)) = None.
+Proof.
+  intros Hv. unfold convert_to_p81_remove_mapping.
+  destruct (el_type x) as [[|[?|?|]]|]; rewrite ?hdr_remove_mapping, ?el_remove_mapping, hdr_p81, el_p81;
+    (split; [apply profile8_flags; exact Hv|reflexivity]).
+Qed.
+
 Lemma convert_target_profile x m y : convert_with_mode x m = Ok y ->
   (m = 1 -> el_spatial_resampling_filter_flag (hdr y) = true /\ disable_residual_flag (hdr y) = false) /\
   (m = 3 -> dovi_profile y = 8 /\ el_type y = None) /\
@@ -154,29 +173,23 @@ Lemma convert_target_profile x m y : convert_with_mode x m = Ok y ->
 Proof.
   unfold convert_with_mode. intros H.
   apply bind_ok_inv in H as [z [Hz H]]. inversion H; subst y. clear H.
-  repeat split.
+  split; [|split].
   - intros ->. cbn [N.eqb Pos.eqb] in Hz.
     destruct (_ || _); [|discriminate]. unfold convert_to_mel in Hz.
-    destruct (rmapping (set_modified x)); [apply bind_ok_inv in Hz as [q [_ Hz]]|]; inversion Hz; reflexivity.
-  - intros ->. cbn [N.eqb Pos.eqb] in Hz. inversion Hz; subst. cbn. reflexivity.
-  - intros ->. cbn [N.eqb Pos.eqb] in Hz. inversion Hz; subst. reflexivity.
-  - intros [-> | ->] Hsrc; cbn [N.eqb Pos.eqb] in Hz.
-    + destruct ((dovi_profile (set_modified x) =? 7) || (dovi_profile (set_modified x) =? 8)) eqn:E78.
+    destruct (rmapping (set_modified x)); [apply bind_ok_inv in Hz as [q [_ Hz]]|]; inversion Hz; split; reflexivity.
+  - intros ->. cbn [N.eqb Pos.eqb] in Hz. inversion Hz; subst. split; reflexivity.
+  - intros Hm Hsrc. rewrite prof_refresh, eltype_refresh.
+    assert (Hp : dovi_profile (set_modified x) = dovi_profile x) by reflexivity.
+    destruct Hm as [-> | ->]; cbn [N.eqb Pos.eqb] in Hz; rewrite ?Hp in Hz.
+    + destruct ((dovi_profile x =? 7) || (dovi_profile x =? 8)) eqn:E78.
       * inversion Hz; subst. destruct Hsrc as [Hv|H5].
-        -- unfold convert_to_p81_remove_mapping. destruct (el_type (set_modified x)) as [[|[|]]|]; cbn; rewrite Hv; reflexivity.
-        -- exfalso. cbn in E78. rewrite H5 in E78. discriminate.
-      * destruct (dovi_profile (set_modified x) =? 5) eqn:E5; [|discriminate].
-        unfold p5_to_p81 in Hz. rewrite E5 in Hz. inversion Hz; subst. reflexivity.
-    + destruct ((dovi_profile (set_modified x) =? 7) || (dovi_profile (set_modified x) =? 8)) eqn:E78; [|discriminate].
+        -- apply p81_rm_profile. rewrite hdr_set_modified. exact Hv.
+        -- exfalso. rewrite H5 in E78. discriminate.
+      * destruct (dovi_profile x =? 5) eqn:E5; [|discriminate].
+        unfold p5_to_p81 in Hz. rewrite Hp, E5 in Hz. inversion Hz; subst. split; cbn; [reflexivity|].
+        destruct (rmapping x); reflexivity.
+    + destruct ((dovi_profile x =? 7) || (dovi_profile x =? 8)) eqn:E78; [|discriminate].
       inversion Hz; subst. destruct Hsrc as [Hv|H5].
-      * cbn. rewrite Hv. reflexivity.
-      * exfalso. cbn in E78. rewrite H5 in E78. discriminate.
-  - intros [-> | ->] Hsrc; cbn [N.eqb Pos.eqb] in Hz.
-    + destruct ((dovi_profile (set_modified x) =? 7) || (dovi_profile (set_modified x) =? 8)) eqn:E78.
-      * inversion Hz; subst. unfold convert_to_p81_remove_mapping.
-        destruct (el_type (set_modified x)) as [[|[|]]|]; cbn; destruct (rmapping x); reflexivity.
-      * destruct (dovi_profile (set_modified x) =? 5) eqn:E5; [|discriminate].
-        unfold p5_to_p81 in Hz. rewrite E5 in Hz. inversion Hz; subst. cbn. destruct (rmapping x); reflexivity.
-    + destruct ((dovi_profile (set_modified x) =? 7) || (dovi_profile (set_modified x) =? 8)) eqn:E78; [|discriminate].
-      inversion Hz; subst. cbn. destruct (rmapping x); reflexivity.
+      * rewrite hdr_p81, el_p81. split; [apply profile8_flags; rewrite hdr_set_modified; exact Hv|reflexivity].
+      * exfalso. rewrite H5 in E78. discriminate.
 Qed.
